@@ -3,6 +3,7 @@
 package main
 
 import (
+	ethtypes "github.com/meshplus/eth-kit/types"
 	"crypto/sha256"
 	"encoding/hex"
 	"encoding/json"
@@ -341,6 +342,15 @@ func (e *execEngine) buildTx(n *node, t []string) (pb.Transaction, bool, error) 
 			return nil, false, fmt.Errorf("bad xfer")
 		}
 		return n.xferTx(t[1], resolveAddr(t[2]), t[3]), true, nil
+	case "eth": // eth signer to value gaslimit gasprice : a signed legacy Ethereum transaction (plain value transfer through the EVM)
+		if len(t) != 6 {
+			return nil, false, fmt.Errorf("bad eth")
+		}
+		tx, err := n.ethTx(t[1], resolveAddr(t[2]), t[3], t[4], t[5])
+		if err != nil {
+			return nil, false, err
+		}
+		return tx, true, nil
 	case "ibtp": // ibtp signer from to idx type timeout group proofkind
 		if len(t) < 9 {
 			return nil, false, fmt.Errorf("bad ibtp")
@@ -483,6 +493,15 @@ func (e *execEngine) block(ws []string) string {
 		// deep copy of the txs for each replica: the executor mutates blocks
 		cp := make([]pb.Transaction, len(txs))
 		for j, tx := range txs {
+			if et, ok := tx.(*ethtypes.EthTransaction); ok {
+				b, _ := et.MarshalBinary()
+				t2 := &ethtypes.EthTransaction{}
+				if err := t2.UnmarshalBinary(b); err != nil {
+					panic(err)
+				}
+				cp[j] = t2
+				continue
+			}
 			b, _ := tx.(*pb.BxhTransaction).Marshal()
 			t2 := &pb.BxhTransaction{}
 			if err := t2.Unmarshal(b); err != nil {
@@ -548,14 +567,16 @@ func blockObs(n *node, h uint64, txs []pb.Transaction) string {
 	if err != nil {
 		return "err getblock " + err.Error()
 	}
-	var rc []string
+	var rc, gas []string
 	for _, tx := range txs {
 		r, err := n.ldg.GetReceipt(tx.GetHash())
 		if err != nil {
 			rc = append(rc, "noreceipt")
+			gas = append(gas, "-")
 			continue
 		}
 		rc = append(rc, fmt.Sprintf("%s:%d", retClass(r), int(r.TxStatus)))
+		gas = append(gas, fmt.Sprint(r.GasUsed))
 	}
 	meta, err := n.ldg.GetInterchainMeta(h)
 	if err != nil {
@@ -588,10 +609,11 @@ func blockObs(n *node, h uint64, txs []pb.Transaction) string {
 		msRaw = append(msRaw, k+":["+strings.Join(meta.MultiTxCounter[k].Slice, ",")+"]")
 		ms = append(ms, k+":["+strings.Join(sortedCopy(meta.MultiTxCounter[k].Slice), ",")+"]")
 	}
-	return fmt.Sprintf("h=%d rc=[%s] counter={%s} timeout={%s} multi={%s} ## rawtimeout={%s} rawmulti={%s} hash=%s sroot=%s troot=%s rroot=%s toroot=%s",
+	return fmt.Sprintf("h=%d rc=[%s] counter={%s} timeout={%s} multi={%s} ## rawtimeout={%s} rawmulti={%s} hash=%s sroot=%s troot=%s rroot=%s toroot=%s gas=[%s]",
 		h, strings.Join(rc, " "), strings.Join(cs, ";"), strings.Join(ts, ";"), strings.Join(ms, ";"),
 		strings.Join(tsRaw, ";"), strings.Join(msRaw, ";"),
-		short(blk.BlockHash), short(blk.BlockHeader.StateRoot), short(blk.BlockHeader.TxRoot), short(blk.BlockHeader.ReceiptRoot), short(blk.BlockHeader.TimeoutRoot))
+		short(blk.BlockHash), short(blk.BlockHeader.StateRoot), short(blk.BlockHeader.TxRoot), short(blk.BlockHeader.ReceiptRoot), short(blk.BlockHeader.TimeoutRoot),
+		strings.Join(gas, ","))
 }
 
 func sortedCopy(l []string) []string {
